@@ -68,6 +68,7 @@ int main(int argc, char **argv) {
     if (ts) opt |= QVECTOR_THREADSAFE;
     FILE *in = fopen(argv[1], "r");
     if (!in) return 2;
+    FILE *devnull = fopen("/dev/null", "w");
     vh_open(argv[2]);
     vh_install_handlers();
     vh_ledger_on = 1; vh_quarantine = 1;
@@ -143,6 +144,7 @@ int main(int argc, char **argv) {
             else if (!strcmp(op, "resize")) ok = V->resize(V, (size_t) i);
             else if (!strcmp(op, "toarray")) { asz = 777; arr = V->toarray(V, &asz); ok = arr != NULL; }
             else if (!strcmp(op, "size")) { rv = (int) V->size(V); }
+            else if (!strcmp(op, "debug")) { ok = V->debug(V, devnull); }
             else if (!strcmp(op, "walk")) {
                 qvector_obj_t o; memset(&o, 0, sizeof o);
                 int newmem = (vh_step & 1);
